@@ -6,6 +6,7 @@ package main
 
 import (
 	"fmt"
+	"go/types"
 	"os"
 	"sort"
 	"strings"
@@ -421,6 +422,20 @@ func runHarness(prog *ssa.Program, entry *ssa.Function, cfg *RunConfig, handlers
 	sh.opaqueFns["Error"] = f
 	sh.byFn.Store(f, handler(func(e *Exec, fn *ssa.Function, a []Value) Value {
 		return opaqueStr(e, "errtext")
+	}))
+	fa := prog.NewFunction("reflect.Type.AssignableTo", errT, "engine")
+	sh.opaqueFns["reflect.Type.AssignableTo"] = fa
+	sh.byFn.Store(fa, handler(func(e *Exec, fn *ssa.Function, a []Value) Value {
+		x, ok1 := a[0].(*reflType)
+		yi, _ := a[1].(Iface)
+		y, ok2 := yi.v.(*reflType)
+		if !ok1 || !ok2 {
+			panic(unsupported("reflect.Type.AssignableTo on unknown type"))
+		}
+		if x.t == opaqueErrType {
+			return tFalse
+		}
+		return B(types.AssignableTo(x.t, y.t))
 	}))
 	t0 := time.Now()
 	var wg sync.WaitGroup
